@@ -189,6 +189,13 @@ def handle_quic_packet(packet: Packet, keylog, quic_sessions: list[QuicSession],
 def run():
     """Starts the program"""
     args = arg_parser_init()
+
+    # start from a clean state: the module-level lists survive between calls of run() in one process
+    server_ports[:] = [443, 44330]
+    keylog.clear()
+    sessions.clear()
+    quic_sessions.clear()
+
     keep_original_ports = args.keep_original_ports
     portmap = get_port_map(args)
 
